@@ -29,8 +29,81 @@ NEG = {  # seeded defect -> (DevMode, invariants that may reject it)
 }
 
 
-SYNTHETIC_BAD_TRACE = "".join(json.dumps(dict(seq=i + 1, ev=ev, pool="runtime", buf=b, g=1, r=1, w=1, dirty=False, err="")) + "\n"
-                              for i, (ev, b) in enumerate([("begin", 0), ("acquire", 1), ("existing", 1), ("release", 1), ("flush", 1), ("end", 0)]))
+def _sev(ev, buf=None, r=1, w=None, dirty=None):
+    d = {"ev": ev, "r": r}
+    if buf is not None:
+        d["buf"] = buf
+    if w is not None:
+        d["w"] = w
+    if dirty is not None:
+        d["dirty"] = dirty
+    return d
+
+
+# Trace self-test: a hand-made trace with mixed event kinds (begin/end carry no buf/w/dirty field) in which every
+# violation kind of TraceRenderPool.tla occurs exactly where listed, and a clean trace that must be accepted.
+SELFTEST_TRACE = [
+    (_sev("begin", r=1), None),
+    (_sev("acquire", 1, 1, 1, True), "NoCarryOver.DirtyAcquire"),
+    (_sev("flush", 1, 1, 1, False), None),
+    (_sev("release", 1, 1, 1, False), None),
+    (_sev("end", r=1), None),
+    (_sev("begin", r=2), None),
+    (_sev("get", 2, 2, dirty=True), "NoCarryOver.DirtyBytesBuffer"),
+    (_sev("put", 2, 2, dirty=True), "NoCarryOver.PutWithoutReset"),
+    (_sev("end", r=2), None),
+    (_sev("begin", r=3), None),
+    (_sev("acquire", 1, 3, 2, False), "NoCarryOver.WrongWriter"),
+    (_sev("acquire", 3, 3, 3, False), "OneOwner.SecondAcquire"),
+    (_sev("existing", 4, 3, 3), "ExclusiveBuffer.UseNotHeld"),
+    (_sev("release", 1, 3, 3), None),
+    (_sev("flush", 1, 3, 3), "ExclusiveBuffer.UseAfterRelease"),
+    (_sev("end", r=3), "OneOwner.HeldAfterReturn"),
+    (_sev("begin", r=4), None),
+    (_sev("get", 2, 4, dirty=False), None),
+    (_sev("begin", r=5), None),
+    (_sev("get", 2, 5, dirty=False), "ExclusiveBuffer.BytesAcquireWhileHeld"),
+    (_sev("put", 2, 4, dirty=False), "ExclusiveBuffer.BytesReleaseNotHeld"),
+    (_sev("put", 2, 5, dirty=False), None),
+    (_sev("put", 2, 5, dirty=False), "ExclusiveBuffer.BytesReleaseNotHeld"),
+    (_sev("end", r=4), None),
+    (_sev("end", r=5), None),
+    (_sev("begin", r=6), None),
+    (_sev("begin", r=6), "Harness.RenderBeginTwice"),
+    (_sev("acquire", 5, 6, 6, False), None),
+    (_sev("begin", r=7), None),
+    (_sev("acquire", 5, 7, 7, False), "ExclusiveBuffer.AcquireWhileHeld"),
+    (_sev("release", 5, 6, 6), "ExclusiveBuffer.ReleaseNotHeld"),
+    (_sev("release", 5, 7, 7), None),
+    (_sev("end", r=6), None),
+    (_sev("end", r=7), None),
+]
+SELFTEST_CLEAN = [_sev("begin", r=1), _sev("acquire", 1, 1, 1, False), _sev("existing", 1, 1, 1), _sev("get", 2, 1, dirty=False),
+                  _sev("put", 2, 1, dirty=False), _sev("flush", 1, 1, 1), _sev("release", 1, 1, 1), _sev("end", r=1),
+                  _sev("begin", r=2), _sev("acquire", 1, 2, 2, False), _sev("flush", 1, 2, 2), _sev("release", 1, 2, 2), _sev("end", r=2)]
+
+
+def trace_selftest(ck, cfgtext):
+    """Every violation kind of the trace spec must fire at exactly the planted lines, whatever other events surround it."""
+    want = [{"line": i + 1, "kind": k} for i, (_, k) in enumerate(SELFTEST_TRACE) if k]
+    bad = "".join(json.dumps(e) + "\n" for e, _ in SELFTEST_TRACE)
+    st = vlib.tlc("TraceRenderPool", "t.cfg", workers=1, timeout=300, files={"t.cfg": cfgtext, "trace.ndjson": bad})
+    rep = st.tagged("TRACE")
+    got = sorted(rep[0]["viol"], key=lambda v: (v["line"], v["kind"])) if rep else None
+    if got != want:
+        raise vlib.InfraError("trace self-test: planted violations %s, trace spec reported %s" % (want, got))
+    kinds = sorted({v["kind"] for v in want})
+    spec_kinds = sorted(set(re.findall(r'V\(n, "([A-Za-z.]+)"\)', open(os.path.join(vlib.SPEC, "TraceRenderPool.tla")).read())))
+    if kinds != spec_kinds:
+        raise vlib.InfraError("trace self-test does not cover every violation kind of the trace spec: %s vs %s" % (kinds, spec_kinds))
+    ok = vlib.tlc("TraceRenderPool", "t.cfg", workers=1, timeout=300,
+                  files={"t.cfg": cfgtext, "trace.ndjson": "".join(json.dumps(e) + "\n" for e in SELFTEST_CLEAN)})
+    rep = ok.tagged("TRACE")
+    if not rep or rep[0]["viol"] or rep[0]["lines"] != len(SELFTEST_CLEAN) or rep[0]["stillheld"] != 0:
+        raise vlib.InfraError("trace self-test: the clean trace was not accepted: %s" % rep)
+    ck.set("trace_selftest", "%d planted violations (all %d kinds, mixed event kinds) reported at their lines; clean trace accepted"
+           % (len(want), len(kinds)))
+
 
 def require_hooks():
     need = [("runtime/verifhook_on.go", "VerifPoolHook"), ("runtime/verifhook_on.go", "VerifBufferState"),
@@ -145,12 +218,16 @@ def main():
     total = dict(renders=0, events=0, hook_calls=0, failed_as_alone=0, handle_ids=0, rewrites=0)
     traces = []
     nraces = 0
+    racesig = {}
     for i, ev, p in outs:
         mode, g, n = runs[i]
         err = p.stderr.decode(errors="replace")
         races = race_reports(err)
-        for sig, text in races[:5]:
+        for sig, text in races:
             nraces += 1
+            racesig[sig] = racesig.get(sig, 0) + 1
+            if racesig[sig] > 2:
+                continue        # two examples per racing function; all are counted
             ck.violation(sig, "the race detector reported a data race in a %s run with %d goroutines" % (mode, g),
                          {"run": {"mode": mode, "goroutines": g, "renders_or_millis": n, "seed": s * 100 + i}, "report": text,
                           "reproduce": "build harness/c14 with -race -tags verif and run: c14 %s %d %d %d events.ndjson" % (mode, s * 100 + i, g, n)})
@@ -167,6 +244,7 @@ def main():
             total[k] += sm.get(k, 0)
         traces.append((i, ev, sm["events"]))
     ck.set("race_reports", nraces)
+    ck.set("race_reports_by_signature", racesig)
     ck.set("stress_runs", [{"mode": m, "goroutines": g, "renders_or_millis": n} for (m, g, n) in runs])
     ck.set("concurrent_renders_compared", total["renders"])
     ck.set("renders_failing_midway", total["failed_as_alone"])
@@ -193,6 +271,7 @@ def main():
         vals = list(ex.map(validate, traces))
     nev = 0
     cnt = {}
+    bykind = {}
     for i, evs, lines, nb, r, rep in vals:
         ck.add_tlc(r, "TraceRenderPool run %d" % i)
         nev += len(lines)
@@ -201,13 +280,19 @@ def main():
                    "events_validated": len(lines), "trace_head": evs[:10]}, limit=3)
         for k, v in rep["cnt"].items():
             cnt[k] = cnt.get(k, 0) + v
-        for v in rep["viol"][:10]:
+        for v in rep["viol"]:
+            bykind[v["kind"]] = bykind.get(v["kind"], 0) + 1
             if v["kind"].startswith("Harness"):
                 raise vlib.InfraError("inconsistent trace: %s at line %d of run %d" % (v["kind"], v["line"], i))
+            if bykind[v["kind"]] > 3:
+                continue        # a few examples per kind; all are counted
             e = evs[v["line"] - 1]
             same = [x for x in evs[max(0, v["line"] - 60): v["line"] + 5] if x["buf"] == e["buf"] or x["r"] == e["r"]]
             ck.violation(v["kind"], "pool hook trace of the real code leaves the pool protocol at event %s" % json.dumps(e),
                          {"violation": v, "run": runs[i], "events_of_that_buffer_and_render": same[-14:]})
+    if bykind:
+        print("TRACE-VIOLATIONS property=C14 " + " ".join("%s=%d" % kv for kv in sorted(bykind.items())))
+    ck.set("trace_violations_by_kind", bykind)
     for k in ("acquire", "existing", "flush", "release", "get", "put", "begin", "end"):
         if cnt.get(k, 0) < 20:
             raise vlib.InfraError("too few %s events recorded: %s" % (k, cnt))
@@ -215,12 +300,7 @@ def main():
     ck.set("pool_event_counts", cnt)
 
     # ---- self-tests of the binding -----------------------------------------------------------------
-    st = vlib.tlc("TraceRenderPool", "t.cfg", workers=1, timeout=600,
-                  files={"t.cfg": cfg("RenderPool_trace.cfg", NB="= 1"), "trace.ndjson": SYNTHETIC_BAD_TRACE})
-    srep = st.tagged("TRACE")
-    if not srep or [v["kind"] for v in srep[0]["viol"]] != ["ExclusiveBuffer.UseAfterRelease"]:
-        raise vlib.InfraError("trace self-test: a trace with Put before the flush was not rejected as UseAfterRelease")
-    ck.set("trace_selftest", "Put-before-flush trace rejected")
+    trace_selftest(ck, cfg("RenderPool_trace.cfg", NB="= 8"))
     env = vlib.goenv()
     env["GORACE"] = "exitcode=0"
     env["VERIF_C14_CORRUPT"] = "1"
